@@ -75,6 +75,9 @@ def mc_parallel(ctx, jobs, par=3):
     out = {}
     for (j, d), r in zip(prepared, results):
         expect_ok = j.get("expect_ok", True)
+        m = re.search(r"Error: Temporal property (\S+) was violated", r.out)
+        if m and not r.violated:
+            r.violated, r.error = m.group(1), None
         ctx.states += r.distinct
         ctx.transitions += r.generated
         rec = {"module": j.get("module", "MC_SyncClient"), "cfg": j["cfg"], "distinct": r.distinct, "generated": r.generated,
@@ -180,6 +183,10 @@ def run(ctx, monitors):
                 ctx.alarm(sig, "%s (%s): monitor %s failed at trace line %s of %s: %s [scenario %s, %s]" % (
                     test, a["mode"], a["mon"], a["line"], out, a["detail"], a["scenario"],
                     "chained" if a["chained"] else "unchained"))
+        for a in alarms:
+            if a["mon"] == "Crash":
+                ctx.notes.append("%s: the real code panicked in scenario %s (%s); no honest peer was ahead there, so C10 says "
+                                 "nothing about it (relevant to C14)" % (test, a["scenario"], a["detail"][:200]))
         if drift:
             ctx.inconclusive.append("%s: %d conformance differences between the code and SyncClient.tla (model drift), first: %s"
                                     % (test, len(drift), drift[0]))
